@@ -41,7 +41,8 @@ Definition opcode (c : cmd) : Z :=
   | Encrypt _ => 8217 | ClassicCreate _ => 1029 | RemoteName _ => 1049
   end.
 
-Inductive req := FeatureReq | NameReq | HostConnReq | TerminateInd | DetachBr | EncReq | ConnectInd.
+(* ConnectIndLate: a ConnectInd that will find its addressee no longer advertising (fix D06d) *)
+Inductive req := FeatureReq | NameReq | HostConnReq | TerminateInd | DetachBr | EncReq | ConnectInd | ConnectIndLate.
 (* DeferredConnFail is not a PDU: it is the callback LE Create Connection Cancel schedules with
    call_soon to send the LE Connection Complete (status 0x02) after its own Command Complete; it
    runs in order with the deliveries to the CUT scheduled before and after it *)
@@ -74,6 +75,8 @@ Inductive op :=
 | ToCut                      (* the oldest PDU in flight to the CUT is delivered *)
 | PeerAccept (a : Z)         (* the host of peer a accepts the classic connection request *)
 | PeerDisconnect (a : Z)     (* the host of peer a disconnects its LE connection with the CUT *)
+| PeerAdvOff (a : Z)         (* peer a stops advertising: its host disabled it, or another central's
+                                ConnectInd got there first *)
 | Remove (a : Z).            (* peer a leaves the link without terminating anything *)
 
 Definition p_init (present : list Z) : pstate := mkP None [] [] [] [] present [] [].
@@ -172,6 +175,13 @@ Definition step_cmd (s : pstate) (c : cmd) : pstate * list out :=
       else (s, [Status op 0; Name 4 a])
   end.
 
+(* the ConnectInds in flight towards peer a will find it no longer advertising *)
+Definition late (a : Z) (x : Z * req) : Z * req :=
+  match snd x with
+  | ConnectInd => if Z.eqb (fst x) a then (fst x, ConnectIndLate) else x
+  | _ => x
+  end.
+
 Definition p_step (s : pstate) (o : op) : pstate * list out :=
   match o with
   | Cmd c => step_cmd s c
@@ -214,8 +224,14 @@ Definition p_step (s : pstate) (o : op) : pstate * list out :=
                 (mkP (p_pend_le s1) (p_conns s1) (p_open s1) rest (p_from s1) (p_present s1)
                      (remz a (p_peer_conn s1)) (p_peer_req s1), [])
             | ConnectInd =>
-                (mkP (p_pend_le s1) (p_conns s1) (p_open s1) rest (p_from s1) (p_present s1)
+                (* accepted: the advertiser stops, later ConnectInds for it come too late *)
+                (mkP (p_pend_le s1) (p_conns s1) (p_open s1) (map (late a) rest) (p_from s1) (p_present s1)
                      (p_peer_conn s1 ++ [a]) (p_peer_req s1), [])
+            | ConnectIndLate =>
+                (* D06d: the address is the peer's but it no longer advertises with it: TerminateInd
+                   (Connection Failed To Be Established) back to the initiator *)
+                (mkP (p_pend_le s1) (p_conns s1) (p_open s1) rest (p_from s1 ++ [(a, PeerTerminate)]) (p_present s1)
+                     (p_peer_conn s1) (p_peer_req s1), [])
             | EncReq | DetachBr => (s1, [])
             end
           else (s1, [])
@@ -260,6 +276,9 @@ Definition p_step (s : pstate) (o : op) : pstate * list out :=
         (mkP (p_pend_le s) (p_conns s) (p_open s) (p_to s) (p_from s ++ [(a, PeerTerminate)]) (p_present s)
              (remz a (p_peer_conn s)) (p_peer_req s), [])
       else (s, [])
+  | PeerAdvOff a =>
+      (mkP (p_pend_le s) (p_conns s) (p_open s) (map (late a) (p_to s)) (p_from s) (p_present s)
+           (p_peer_conn s) (p_peer_req s), [])
   | Remove a =>
       (mkP (p_pend_le s) (p_conns s) (p_open s) (p_to s) (p_from s) (remz a (p_present s))
            (p_peer_conn s) (p_peer_req s), [])
@@ -337,7 +356,7 @@ Definition concludes (s : pstate) : bool :=
 
 Definition alphabet : list op :=
   [Cmd (LeCreate false 2); Cmd LeCancel; Adv 2; Cmd (ReadFeat 1); Cmd (Encrypt 1); Cmd (Disconnect 1);
-   PeerDisconnect 2; Cmd (ClassicCreate 3); PeerAccept 3; Cmd (RemoteName 3); ToPeer; ToCut].
+   PeerDisconnect 2; PeerAdvOff 2; Cmd (ClassicCreate 3); PeerAccept 3; Cmd (RemoteName 3); ToPeer; ToCut].
 
 Fixpoint all_ok (depth : nat) (s : pstate) : bool :=
   concludes s &&
